@@ -34,6 +34,10 @@ DECLINED = {
     "C19": ["ICANN suffixes hashed for names under a private suffix (pinned by an existing unit test)"],
 }
 
+MORE = {'C01': ['hosts-style / plain-domain rule lines with capitals never matching (rule library index)'], 'C03': ['ClientID lost when the TLS server name differs from the configured one in letter case only'], 'C05': ['DHCP set_config / reset racing with DNS requests (DHCP reconfiguration is outside the statement)'], 'C07': ['records longer than 16 KiB breaking cursor paging (listed as an open finding)'], 'C08': ['||domain^ on the ignore list missing labels with unusual octets (rule library)', 'statistics keeping full addresses recorded before anonymisation was switched on'], 'C10': ['set_config wiping the lease table (DHCP reconfiguration is outside the quantifier)'], 'C12': ['block_auth_min above 153722867 overflowing to a negative block'], 'C13': ['plain scalars of string settings re-typed by the upgrade (listed as an open finding)', 'step 25->26 forgetting dns.cache_time'], 'C17': ['a malformed pattern accepted at start panicking later without reading anything']}
+for _k, _v in MORE.items():
+    DECLINED.setdefault(_k, []).extend(_v)
+
 outdir, prefix = sys.argv[1], sys.argv[2]
 second = "--second" in sys.argv
 here = os.path.dirname(os.path.abspath(__file__))
@@ -48,7 +52,7 @@ for p in props:
     if second:
         if DECLINED.get(pid):
             txt += ". ALSO ALREADY REPORTED AND JUDGED OUTSIDE THE STATEMENT (do not report again): " + "; ".join(DECLINED[pid])
-        txt += (". NOTE: this is a second hunt; the obvious places have been looked at once already (and the defects "
+        txt += (". NOTE: this is a further hunt; one or two hunters have been here already (and the defects "
                 "listed above were repaired in your worktree), so go for interplay between features, run-time "
                 "reconfiguration through the admin API followed by restart, rarely used request shapes, and sequences "
                 "of three or more operations.")
